@@ -253,15 +253,33 @@ void from_json(const JSON& object, RSCore& core) {
 }
 
 void to_json(JSON& object, const TextInterpretation& text) {
+  // Note: a plain list of texts implies identifiers 1..n, other identifiers are stored explicitly
+  auto isDense = true;
+  int32_t expectedID = 1;
+  for (const auto& textElement : text) {
+    isDense = isDense && textElement.first == expectedID;
+    ++expectedID;
+  }
   object = JSON::array();
   for (const auto& textElement : text) {
-    object += textElement.second;
+    if (isDense) {
+      object += textElement.second;
+    } else {
+      object += JSON{
+        {"id", textElement.first},
+        {"text", textElement.second}
+      };
+    }
   }
 }
 
 void from_json(const JSON& object, TextInterpretation& text) {
   for (auto it = begin(object); it != end(object); ++it) {
-    text.PushBack(it->get<std::string>());
+    if (it->is_object()) {
+      text.SetInterpretantFor(it->at("id").get<int32_t>(), it->at("text").get<std::string>());
+    } else {
+      text.PushBack(it->get<std::string>());
+    }
   }
 }
 
